@@ -167,6 +167,27 @@ impl std::fmt::Display for ForeignError {
 }
 impl std::error::Error for ForeignError {}
 
+/// A provider failure that is not a SignatureError. The concrete error type varies with the message
+/// ("... (n)" at the end selects it explicitly, otherwise a digest of the message does), so that the
+/// crate's BoxError conversion is exercised with its own non-SignatureError types as well as with
+/// unrelated ones. Every one of them has to surface as an internal failure.
+pub fn foreign_error(m: &str) -> BoxError {
+    let explicit = m.strip_suffix(')').and_then(|x| x.rsplit_once('(')).and_then(|(_, n)| n.parse::<usize>().ok());
+    match explicit.unwrap_or((crate::model::crypto::fnv64(m.as_bytes()) % 8) as usize) % 8 {
+        0 => Box::new(ForeignError(m.to_string())),
+        1 => Box::new(std::io::Error::new(std::io::ErrorKind::ConnectionRefused, m.to_string())),
+        2 => Box::new(scratchstack_aws_signature::KeyTooLongError),
+        3 => Box::new(std::fmt::Error),
+        4 => BoxError::from(m.to_string()),
+        5 => Box::new("not a date".parse::<DateTime<Utc>>().unwrap_err()),
+        6 => Box::new(String::from_utf8(vec![0xff]).unwrap_err()),
+        _ => match GetSigningKeyResponse::builder().build() {
+            Err(e) => Box::new(e),
+            Ok(_) => Box::new(ForeignError(m.to_string())),
+        },
+    }
+}
+
 pub fn build_principal(spec: &PrincipalSpec) -> Principal {
     match spec {
         PrincipalSpec::Empty => Principal::new(vec![]),
@@ -288,7 +309,7 @@ impl tower::Service<GetSigningKeyRequest> for Prov {
             self.log.lock().unwrap().push(ProvEvent::PollReady { result: "err" });
             return Poll::Ready(Err(match e {
                 Answer::SigErr(k, m) => answer_to_err(*k, m),
-                Answer::Foreign(m) => Box::new(ForeignError(m.clone())),
+                Answer::Foreign(m) => foreign_error(m),
                 Answer::Lookup => Box::new(ForeignError("not ready".into())),
             }));
         }
@@ -311,7 +332,7 @@ impl tower::Service<GetSigningKeyRequest> for Prov {
         script.ready_err = None;
         let result: Result<GetSigningKeyResponse, BoxError> = match provider_outcome(&script, &q) {
             ProvOutcome::Err(k, m) => Err(answer_to_err(k, &m)),
-            ProvOutcome::Foreign(m) => Err(Box::new(ForeignError(m))),
+            ProvOutcome::Foreign(m) => Err(foreign_error(&m)),
             ProvOutcome::Key { entry, .. } => {
                 let e = &self.script.keys[entry];
                 // The KSigningKey object can only be made through the crate's own derivation.
